@@ -149,23 +149,41 @@ def run(ctx):
             ok_build, log = ctx.coq_make(["Proofs/DumpProtoProofs.vo"])
             if ok_build:
                 ok_props, log = ctx.props("Props/C14.v")
+                if ok_props:
+                    # limitation lemmas (what is NOT guaranteed): not obligations of the property
+                    nob = len(ctx.obligations)
+                    ok_lim, llog = ctx.props("Props/C14Limits.v")
+                    if not ok_lim:
+                        del ctx.obligations[nob:]
+                        ctx.notes.append("Props/C14Limits.v (limitation lemmas: side file can be left partial; Mpo reload not established) no longer "
+                                         "compiles -- the source may have improved; not counted: " + llog[-300:])
     if not ok_props and not any(o["file"] == "Props/C14.v" for o in ctx.obligations):
         ctx.obligations.append({"name": "C14 (translators + build of Gen/DumpProto.v, Gen/DumpKeys.v, Proofs/DumpProtoProofs.v)",
                                 "file": "Proofs/DumpProtoProofs.v", "ok": False, "assumptions": None})
     # which of the generated booleans fail, and a failing history from the model
     model_bad = []          # (config, history as flat attempt codes)
     keys_bad = []
+    fields_bad = []
     if ok_gen and not ok_props and not tx_err:
         txt = ("From Coq Require Import List ZArith String.\nImport ListNotations.\nFrom RV Require Import Model.DumpProto Gen.DumpProto Gen.DumpKeys.\n"
                "Definition first_some (l : list (option (list attempt))) := match filter (fun x => match x with Some _ => true | None => false end) l with x :: _ => x | [] => None end.\n"
                "Eval vm_compute in ((flat_map (fun np => ([if check_safe (snd np) npaths watched then 1%Z else 0%Z; if check_noraise (snd np) npaths then 1%Z else 0%Z] ++\n"
                "   match first_some (map (fun d => find_unsafe d (snd np) watched (init_state npaths)) [1;2;3;4]) with Some h => map attempt_code h | None => [(-5)%Z] end ++ [(-9)%Z])%list) protocols\n"
-               "   ++ map (fun k => if kind_ok k then 1%Z else 0%Z) kinds)%list).\n")
+               "   ++ map (fun k => if kind_ok k then 1%Z else 0%Z) kinds\n"
+               "   ++ map (fun k => if maps_ok (snd (fst (fst k))) (snd (fst k)) (snd k) then 1%Z else 0%Z) field_kinds\n"
+               "   ++ map (fun s => if check_post_inv (snd (fst s)) npaths (snd s) (reach (snd (fst s)) npaths) then 1%Z else 0%Z) side_files)%list).\n")
         rc, out = ctx.coq_eval("diagnose", txt)
         flat = common.parse_Z_list(out) if rc == 0 else None
         if flat is not None and pinfo is not None:
             per = split_on(flat, -9)
-            rest = flat[len(flat) - len(kinfo["pairs"]):] if kinfo else []
+            nside = sum(1 for k_ in pinfo["protocols"] if k_ != "None")
+            tailn = len(kinfo["pairs"]) + 3 + nside if kinfo else 0
+            rest = flat[len(flat) - tailn:] if kinfo else []
+            for nm_, v in zip(["Mps", "MpDm", "TTNS"], rest[len(kinfo["pairs"]):len(kinfo["pairs"]) + 3] if kinfo else []):
+                if v == 0:
+                    fields_bad.append(nm_)
+            if kinfo and 0 in rest[len(kinfo["pairs"]) + 3:]:
+                fields_bad.append("side-file post-condition")
             for (name, _), vals in zip(pinfo["protocols"].items(), per):
                 if len(vals) >= 2 and (vals[0] == 0 or vals[1] == 0):
                     h = [v for v in vals[2:]]
@@ -308,6 +326,52 @@ def run(ctx):
     if kinfo is not None and any(kinfo["swallow"].values()):
         ctx.notes.append("MatrixProduct.dump / TTNBase.dump swallow every exception of np.savez (the round-trip harness treats a missing file as a failed round trip; none occurred)")
     phases["roundtrips"] = round(time.time() - t0, 1)
+    # ------------------------------------------------------------------ 5b. spill correspondence (hand model of _array2mt/__setitem__/__getitem__)
+    sp_bad = []
+    sp_n = 0
+    nprog = 40 if quick else 300
+    progs = []
+    for _ in range(nprog):
+        n_ = ctx.rng.choice([2, 3, 4, 5])
+        limit = ctx.rng.choice([64, 100, 200, 400])
+        ops = []
+        for k_ in range(ctx.rng.randrange(4, 14)):
+            a_, b_ = ctx.rng.choice([1, 1, 2, 3, 5, 7]), ctx.rng.choice([1, 1, 2, 3, 5, 7])
+            ops.append([ctx.rng.randrange(n_), k_ + 1, a_, b_])
+        progs.append({"n": n_, "limit": limit, "ops": ops})
+    rc, r, out = ctx.impl("c14_spill.py", {"programs": progs}, timeout=600)
+    if r is None:
+        sp_bad.append({"what": "spill script failed", "out": (out or "")[-600:]})
+    elif ok_gen:
+        txt = ("From Coq Require Import List ZArith.\nImport ListNotations.\nFrom RV Require Import Model.DumpProto.\nOpen Scope Z_scope.\n"
+               "Definition nb (p : nat * nat) : nat := snd p.\n"
+               "Fixpoint runp (limit : nat) (ops : list (nat * nat * nat)) (st : sstate (nat * nat)) : list Z :=\n"
+               "  match ops with [] => [] | (k, id, sz) :: r =>\n"
+               "    let st' := setitem nb limit k (id, sz) st in\n"
+               "    (map Z.of_nat (files_on_disk st') ++ [-7] ++ map (fun j => match getitem j st' with Some p => Z.of_nat (fst p) | None => -3 end) (seq 0 (length (s_slots st'))) ++ [-8] ++ runp limit r st')%list end.\n"
+               "Definition init (n : nat) : sstate (nat * nat) := mk_sstate (map (fun j => InMem (1000 + j, 16)%nat) (seq 0 n)) (fun _ => None).\n"
+               "Definition progs : list (nat * nat * list (nat * nat * nat)) := [\n  " +
+               ";\n  ".join("(%d, %d, [%s])%%nat" % (p_["n"], p_["limit"], "; ".join("(%d, %d, %d)" % (o[0], o[1], o[2] * 2 * o[3] * 8) for o in p_["ops"])) for p_ in progs) +
+               "].\nEval vm_compute in (flat_map (fun p => runp (snd (fst p)) (snd p) (init (fst (fst p))) ++ [-9])%list progs).\n")
+        rc2, out2 = ctx.coq_eval("spill", txt)
+        flat = common.parse_Z_list(out2) if rc2 == 0 else None
+        per = split_on(flat, -9) if flat is not None else None
+        if per is None or len(per) != len(progs):
+            sp_bad.append({"what": "spill model evaluation failed", "out": (out2 or "")[-600:]})
+        else:
+            for p_, run_, vals in zip(progs, r["runs"], per):
+                if run_["err"]:
+                    sp_bad.append({"what": "implementation raised", "program": p_, "err": run_["err"]})
+                    continue
+                steps = split_on(vals, -8)
+                for o, st_, mv in zip(p_["ops"], run_["steps"], steps):
+                    files, ids = split_on(mv + [-7], -7)[:2]
+                    sp_n += 1
+                    if files != st_["files"] or ids != st_["ids"]:
+                        sp_bad.append({"what": "spill state differs", "program": p_, "after_op": o, "model": {"files": files, "ids": ids},
+                                       "implementation": {"files": st_["files"], "ids": st_["ids"]}})
+                        break
+    phases["spill"] = round(time.time() - t0, 1)
     ctx.notes.append("cumulative wall time per phase (s): %s" % json.dumps(phases))
     # ------------------------------------------------------------------ 6. verdicts
     if unsafe_impl:
@@ -325,7 +389,7 @@ def run(ctx):
                        "cell_codes": "-1 absent, -2 present but not loadable, k = complete result of dump k",
                        "model": model_bad, "unsafe_histories_found": len(unsafe_impl), "coq_log_tail": log[-800:] if isinstance(log, str) else ""},
                       found=True, repro=repro)
-    elif ptx_err or model_bad or (not ok_props and not keys_bad and not ktx_err):
+    elif ptx_err or model_bad or (not ok_props and not keys_bad and not fields_bad and not ktx_err):
         ctx.violation("dump_dict-protocol", "; ".join((["translator " + e for e in ptx_err]) or ["theorems of Props/C14.v on the generated protocol"]),
                       {"model": model_bad, "coq_log_tail": log[-1500:] if isinstance(log, str) else "",
                        "fault_injection": "no unsafe history among %d executed" % n_fault}, found=False)
@@ -340,16 +404,29 @@ def run(ctx):
             repro = src + "\ncase = json.loads(%r)\ntmp = tempfile.mkdtemp()\nmism, info = (run_tree if case['kind'] == 'ttns' else run_chain)(case, tmp)\nprint(mism, info)\nsys.exit(1 if mism else 0)\n" % json.dumps(first["case"])
         ctx.violation("state-roundtrip-%s" % (first.get("case", {}).get("kind", "script")),
                       "correspondence dump/load round trip" + ("; theorem C14_keys_cover (kinds: %s)" % ",".join(keys_bad) if keys_bad else "")
+                      + ("; theorem C14_fields_roundtrip (kinds: %s)" % ",".join(fields_bad) if fields_bad else "")
                       + ("; translator " + "; ".join(ktx_err) if ktx_err else ""),
                       {"failures": rt_bad[:5], "n_failures": len(rt_bad)}, found=repro is not None, repro=repro)
-    elif keys_bad or ktx_err:
-        ctx.violation("state-dump-keys", "theorem C14_keys_cover" + ("; translator " + "; ".join(ktx_err) if ktx_err else ""),
-                      {"kinds": keys_bad, "translator": ktx_err, "coq_log_tail": log[-800:] if isinstance(log, str) else ""}, found=False)
+    elif keys_bad or fields_bad or ktx_err:
+        ctx.violation("state-dump-keys", "theorem C14_keys_cover / C14_fields_roundtrip / C14_side_file_current_after_return" + ("; translator " + "; ".join(ktx_err) if ktx_err else ""),
+                      {"kinds": keys_bad, "field_kinds": fields_bad, "translator": ktx_err, "coq_log_tail": log[-800:] if isinstance(log, str) else ""}, found=False)
+    if sp_bad:
+        first = next((b for b in sp_bad if b.get("what") == "spill state differs"), None)
+        repro = None
+        if first is not None:
+            src = open(os.path.join(common.VERIF, "harness", "impl", "c14_spill.py")).read().replace('if __name__ == "__main__":\n    main()', "")
+            k_ = first["program"]["ops"].index(first["after_op"])
+            repro = src + ("\nprog = json.loads(%r)\ntmp = tempfile.mkdtemp()\nst = run(prog, tmp)[%d]\nshutil.rmtree(tmp, ignore_errors=True)\n"
+                           "print('after store', prog['ops'][%d], 'files on disk', st['files'], 'ids read back', st['ids'], '; expected', %r, %r)\n"
+                           "sys.exit(0 if (st['files'], st['ids']) == (%r, %r) else 1)\n") % (
+                json.dumps(first["program"]), k_, k_, first["model"]["files"], first["model"]["ids"], first["model"]["files"], first["model"]["ids"])
+        ctx.violation("spill-correspondence", "correspondence spill model (C14_spill_* are about Model/DumpProto.v: setitem/getitem) vs MatrixProduct.__setitem__/__getitem__/_array2mt",
+                      {"mismatches": sp_bad[:5], "n": len(sp_bad)}, found=repro is not None, repro=repro)
     dist = {"fault_histories": {k: len(v) for k, v in fault_cases.items()}, "process_end_states_compared": n_cmp,
-            "processes_killed": n_killed, "killed_leaving_an_unloadable_file": n_inside, "roundtrip": rt_hist}
-    return {"evaluations": n_cmp + rt_n,   # unit: process end states compared + round-trip cases
+            "processes_killed": n_killed, "spill_store_steps_compared": sp_n, "killed_leaving_an_unloadable_file": n_inside, "roundtrip": rt_hist}
+    return {"evaluations": n_cmp + rt_n + sp_n,   # unit: process end states compared + round-trip cases + spill store steps
             "distinct_nontrivial": n_killed + rt_nontriv,
             "rule": "fault injection: every process-level history with every crash point of every step (crash points = action counts the real code produced; np.savez counts 2), "
-                    "%s; a process end state is non-trivial when the process was killed. Round trips: a case is non-trivial when some bond dimension >= 2" % (
+                    "%s; a process end state is non-trivial when the process was killed. Round trips: a case is non-trivial when some bond dimension >= 2. Spill: every store step of random programs compared with the model (files on disk, tensor read back per site)" % (
                         ", ".join("dump_mps=%s: %d process(es) of %d-step jobs" % (c, l, n) for c, l, n in plans)),
             "samples": samples[:3], "exhaustive": True, "input_distribution": dist}
